@@ -94,11 +94,11 @@ Section Facts.
     unfold add. rewrite cfold_get; [| |apply target_nd].
     - change (lk target st) with (pm_get target st). destruct (pm_get target st) as [n|] eqn:E; [|reflexivity].
       unfold f_add. rewrite origin_get, (lk_store _ _ _ E). cbn [negb andb orb]. rewrite orb_false_r.
-      destruct (is_some (lk ps0 st)); cbn [negb]; [reflexivity|].
+      destruct (is_some (lk ps0 st)); cbn [negb]; [reflexivity|]. rewrite orb_false_r.
       unfold add_id. rewrite (lk_store _ _ _ E). destruct (pid n =? 0); [reflexivity|].
       rewrite <- (lk_store _ _ _ E). rewrite peer_eta. reflexivity.
     - intros o n. unfold f_add. destruct (negb (is_some (pm_get origin (pstore o))) || _); [|discriminate].
-      intros H; inversion H. destruct (pid o =? 0); reflexivity.
+      intros H; inversion H. destruct ((pid o =? 0) || is_some (pm_get origin (pstore o))); reflexivity.
   Qed.
 
   Lemma rem_sorted : PSorted rem. Proof. apply cfold_sorted. constructor. Qed.
